@@ -29,7 +29,7 @@ class C04(flow.Spec):
     partial = []
 
     def gen_cases(self, rng, tier):
-        n = {'quick': 500, 'thorough': 12000, 'search': 2500}[tier]
+        n = {'quick': 1000, 'thorough': 20000, 'search': 3000}[tier]
         return [self.gen_one(rng) for _ in range(n)]
 
     def gen_one(self, rng):
@@ -123,12 +123,16 @@ class C04(flow.Spec):
             elif r < 0.94:
                 size = rng.choice([0, 1, 4095, 4096, 4097, 3 * 4096, rng.randrange(1, 6 * 4096), M64, M64 - 4094, M64 - 4095])
                 ops.append([8, frame(), size, flags()])
-            elif r < 0.97:
+            elif r < (0.955 if weird else 0.97):
                 size = rng.choice([0, 1, 4096, 4097, rng.randrange(1, 4 * 4096), M64, M64 - 100])
                 f = rng.choice([rng.randrange(1, 1 << 20), rng.choice(pages) & M36, 0])
                 ops.append([9, f, size, flags()])
                 for i in range(min((size + 4095) >> 12, 6) if size < (1 << 32) else 0):
                     pages.append(f + i)
+            elif weird and rng.random() < 0.6:
+                # flip the huge / present bit of an existing entry on the page's path, then use the page
+                ops.append([17, pg, rng.randrange(3), rng.choice([pc.HUGE, pc.HUGE, P, pc.HUGE | P])])
+                ops.append(rng.choice([[0, pg, frame(), flags() | P], [1, pg], [2, (pg << 12) & M64], [0, (pg + 1) & M64, frame(), P | RW]]))
             elif weird:
                 # fabricate an upper-level entry: huge bit, cleared present bit, garbage
                 lvl = rng.randrange(3)
